@@ -24,7 +24,7 @@ from gens.jose import ALL_JWS
 from ref import jws as rjws, jwe as rjwe, b64 as rb, keys as rk, selftest
 
 LEVEL = "exploration"
-RULE = ("(a) operations from a pool of 66 (sign/verify HS256 with two different keys, ES256, EdDSA, RS256 compact and JSON, key-set signing "
+RULE = ("(a) operations from a pool of 70 (sign/verify HS256 with two different keys, ES256, EdDSA, RS256 compact and JSON, key-set signing "
         "with random pick, A128KW / ECDH-ES / dir encrypt and decrypt, jwt encode/decode, thumbprint, ensure_kid, KeySet([...]), "
         "KeySet.as_dict, public export, PEM export, per-call allow-lists, caller registries, PBES2 with the right / a wrong password, CBC-HS / ChaCha20 / GCMKW / ECDH-1PU messages, compressed (DEF) messages with two different plaintexts, keys carrying use / key_ops) run pairwise in two threads over shared Key / KeySet / registry objects rebuilt from "
         "stored material for every schedule (lazy initialisation is raced every time); the tracer switches threads only at the "
@@ -579,6 +579,44 @@ def op_decrypt_kw_zip_b(G):
     return jwe.decrypt_compact(material()["tok"]["kw_zip_b"], G.oct16).plaintext.decode()
 
 
+def _ref_decrypt_json(tok, keyname):
+    m = material()
+    try:
+        FRESH.append(("iv", tok.get("iv")))
+        r = rjwe.decrypt_json(tok, lambda h: m["ref"][keyname])
+        return ["valid", r["plaintext"].decode("utf-8", "replace")]
+    except rjwe.Reject as e:
+        return [f"invalid({e})", ""]
+    except Exception as e:
+        return [f"unreadable({type(e).__name__})", ""]
+
+
+def op_encrypt_json_kw(G):
+    from joserfc import jwe
+    o = jwe.FlattenedJSONEncryption({"alg": "A128KW", "enc": "A128GCM"}, b"secret text", None, b"aad-1")
+    o.add_recipient(None, G.oct16)
+    return _ref_decrypt_json(jwe.encrypt_json(o, None), "oct16")
+
+
+def op_encrypt_json_kw_b(G):
+    from joserfc import jwe
+    o = jwe.GeneralJSONEncryption({"enc": "A128GCM"}, b"another message, longer than the first one", {"cty": "text"})
+    o.add_recipient({"alg": "A128KW"}, G.oct16)
+    return _ref_decrypt_json(jwe.encrypt_json(o, None), "oct16")
+
+
+def op_decrypt_c20p_list_and_registry(G):
+    from joserfc import jwe
+    # JWE: a list given next to a registry decides for this call
+    return jwe.decrypt_compact(material()["tok"]["kw_c20p"], G.oct16, algorithms=["A128KW", "C20P"], registry=G.reg_jwe).plaintext.decode()
+
+
+def op_decrypt_c20p_registry_only(G):
+    from joserfc import jwe
+    # C20P is not in the shared registry's list: refused
+    return jwe.decrypt_compact(material()["tok"]["kw_c20p"], G.oct16, registry=G.reg_jwe).plaintext.decode()
+
+
 def op_pp_kid_a(G):
     G.pp_a.ensure_kid()
     return [G.pp_a.kid, G.pp_a.kid == material()["tp"]["ec2"], G.pp_a.as_dict(private=False).get("kid")]
@@ -597,7 +635,7 @@ def op_pp_sign_b(G):
 
 
 OPS = {f.__name__[3:]: f for f in [
-    op_pp_kid_a, op_pp_kid_b, op_pp_sign_b,
+    op_pp_kid_a, op_pp_kid_b, op_pp_sign_b, op_encrypt_json_kw, op_encrypt_json_kw_b, op_decrypt_c20p_list_and_registry, op_decrypt_c20p_registry_only,
     op_encrypt_kw_zip, op_encrypt_kw_zip_b, op_decrypt_kw_zip, op_decrypt_kw_zip_b,
     op_encrypt_kw_foreign_header, op_decrypt_pbes2_default_registry, op_sigkey_first_use_sign, op_sigkey_encrypt_refused, op_sigkey_keyset, op_sigkey_export,
     op_read_kid, op_custom_registry_sign, op_sign_unregistered_header, op_custom_jwe_registry, op_encrypt_unregistered_header,
@@ -627,6 +665,8 @@ TOUCH = {"sigkey_first_use_sign": {"ec_sig"}, "sigkey_encrypt_refused": {"ec_sig
          "encrypt_gcmkw": {"A128GCMKW", "A128GCM"}, "decrypt_gcmkw": {"A128GCMKW", "A128GCM"},
          "encrypt_1pu_kw": {"ECDH-1PU+A128KW", "A128CBC-HS256"}, "decrypt_1pu_kw": {"ECDH-1PU+A128KW", "A128CBC-HS256"},
          "decrypt_1pu_kw_b": {"ECDH-1PU+A128KW", "A128CBC-HS256"},
+         "encrypt_json_kw": {"json-enc", "A128GCM", "A128KW"}, "encrypt_json_kw_b": {"json-enc", "A128GCM", "A128KW"},
+         "decrypt_c20p_list_and_registry": {"reg_jwe", "C20P"}, "decrypt_c20p_registry_only": {"reg_jwe", "C20P"},
          "pp_kid_a": {"pp"}, "pp_kid_b": {"pp"}, "pp_sign_b": {"pp"},
          "encrypt_kw_zip": {"DEF"}, "encrypt_kw_zip_b": {"DEF"}, "decrypt_kw_zip": {"DEF"}, "decrypt_kw_zip_b": {"DEF"}}
 CORE = ["sign_hs_k1", "sign_hs_k2", "verify_hs_k1", "verify_hs_wrongkey", "sign_es", "verify_es_private_obj", "keyset_new", "keyset_sign_pick",
@@ -636,7 +676,8 @@ CORE = ["sign_hs_k1", "sign_hs_k2", "verify_hs_k1", "verify_hs_wrongkey", "sign_
         "verify_hs256_list", "verify_hs512_under_hs256_list", "verify_hs512_list", "decrypt_pbes2_right", "decrypt_pbes2_wrong",
         "verify_hs_registry_and_list", "verify_es_registry", "encrypt_kw_cbc", "decrypt_kw_cbc", "decrypt_kw_b", "decrypt_kw_cbc_b",
         "decrypt_kw_c20p", "decrypt_kw_c20p_b", "encrypt_gcmkw", "encrypt_1pu_kw", "decrypt_1pu_kw", "decrypt_1pu_kw_b",
-        "encrypt_kw_zip", "encrypt_kw_zip_b", "decrypt_kw_zip", "decrypt_kw_zip_b", "pp_kid_a", "pp_kid_b", "pp_sign_b"]
+        "encrypt_kw_zip", "encrypt_kw_zip_b", "decrypt_kw_zip", "decrypt_kw_zip_b", "pp_kid_a", "pp_kid_b", "pp_sign_b",
+        "encrypt_json_kw", "encrypt_json_kw_b", "decrypt_c20p_list_and_registry", "decrypt_c20p_registry_only"]
 
 
 def outcome(fn, G):
@@ -916,10 +957,11 @@ def run_shard(ctx, spec):
     names = CORE if quick else sorted(OPS)
     if spec["part"] == "sched":
         pairs = [(a, b) for a in names for b in names]
-        mine = [p for j, p in enumerate(pairs) if j % spec["n"] == spec["i"]]
-        # pairs that share a lazily initialised or long-lived object first: should the time budget run out, it is the sparse
-        # schedules of unrelated pairs that are left over
-        mine.sort(key=lambda p: not (TOUCH.get(p[0], set()) & TOUCH.get(p[1], set())))
+        # pairs that share a lazily initialised or long-lived object first (dealt out evenly over the shards: they get every line):
+        # should the time budget run out, it is the sparse schedules of unrelated pairs that are left over
+        hot_pairs = [p for p in pairs if TOUCH.get(p[0], set()) & TOUCH.get(p[1], set())]
+        cold_pairs = [p for p in pairs if not (TOUCH.get(p[0], set()) & TOUCH.get(p[1], set()))]
+        mine = [p for j, p in enumerate(hot_pairs) if j % spec["n"] == spec["i"]] + [p for j, p in enumerate(cold_pairs) if j % spec["n"] == spec["i"]]
         lens = {}
 
         def body(offset):
@@ -930,7 +972,7 @@ def run_shard(ctx, spec):
                     lens[a] = solo_steps(a)
                 la = lens[a]
                 hot = bool(TOUCH.get(a, set()) & TOUCH.get(b, set()))
-                stride = 1 if (hot or not quick) else max(1, la // 3)   # every line for pairs sharing an object (and in thorough); 3-4 preemption points otherwise
+                stride = 1 if (hot or not quick) else max(1, la // 2)   # every line for pairs sharing an object (and in thorough); 2-3 preemption points otherwise
                 for i in range(offset % stride, la + 1, stride):
                     sched = [(0, i), (1, None)]
                     f, switched, steps = run_schedule(a, b, sched)
